@@ -187,8 +187,9 @@ def event_correspondence(ctx, H, E):
     epub_more = epub_tags8 + ["script", "object", "th", "br", "b", "h1", "div", "style", "iframe", "applet", "li"]
     L = ctx.n(3, 4)
     html_lists = list(exhaustive(html_tags6, L))
-    epub_lists = list(exhaustive(epub_tags8, 3)) + ([l for l in exhaustive(epub_tags6, 4) if len(l) == 4] if L == 4 else [])
-    for _ in range(ctx.n(2500, 20000)):
+    epub_lists = (list(exhaustive(epub_tags6, 3)) if L == 3 else
+                  list(exhaustive(epub_tags8, 3)) + [l for l in exhaustive(epub_tags6, 4) if len(l) == 4])
+    for _ in range(ctx.n(600, 8000)):
         html_lists.append(random_events(rng, html_more, rng.randint(4, 24)))
         epub_lists.append(random_events(rng, epub_more, rng.randint(4, 24)))
 
@@ -310,7 +311,7 @@ def event_oracle(ctx, H, E):
             if not same(name, cls, obs, a, b):
                 ctx.finding(f"{name}:comment-visible", f"{name}: a comment at a visible position changes the state (events {a!r})",
                             {"machine": name, "events": a, "without": b})
-        for _ in range(ctx.n(300, 3000)):
+        for _ in range(ctx.n(1000, 10000)):
             evs = random_events(rng, tags + removable, rng.randint(0, 12))
             i = rng.randint(0, len(evs))
             a = evs[:i] + [("C", rng.choice(["hid", "<p>hid</p>", "</noscript>"]))] + evs[i:]
@@ -319,7 +320,7 @@ def event_oracle(ctx, H, E):
                 ctx.finding(f"{name}:comment-visible", f"{name}: a comment changes the state (events {a!r})",
                             {"machine": name, "events": a, "without": evs})
         # random probes
-        for _ in range(ctx.n(1500, 15000)):
+        for _ in range(ctx.n(6000, 60000)):
             pre = random_events(rng, tags, rng.randint(0, 8))
             try:
                 if drive(cls, pre).skip_depth != 0:
@@ -615,7 +616,7 @@ def text_level(ctx, H, E):
         ctx.finding("html:head-removable", f"{path}: {why} for script/style in <head>", {"path": path, "why": why})
 
     # generated documents ------------------------------------------------------------------------
-    ndocs = ctx.n(500, 5000)
+    ndocs = ctx.n(1500, 15000)
     for i in range(ndocs):
         d = Doc(rng)
         body = d.body(rng.randint(1, 5))
@@ -674,7 +675,7 @@ def feed_correspondence(ctx, H, E):
             '<!DOCTYPE html><?pi x?><p>a &amp; b &#65; <![CDATA[c]]> <!-- d --></p><title>t</title>',
             '<table><tr><td>a<noscript></td>x</noscript></td><th>b</th></tr></table><p>c</p>',
             '<P CLASS=x Class=y hidden>a</P><NoScript>h</NOSCRIPT>b<object><param name=a>h</object>c']
-    for _ in range(ctx.n(250, 2500)):
+    for _ in range(ctx.n(120, 1000)):
         d = Doc(rng)
         body = d.body(rng.randint(1, 4))
         docs.append(body if rng.random() < 0.5 else wrap_full(body))
